@@ -392,6 +392,13 @@ Section Model.
     forallb (fun d => valid_denom d && negb (v_reject_hex v && is_hex_address d)) (p_denoms p) &&
     is_hex_address (p_text p).
 
+  (* the seenDenom loop of GenesisState.Validate: None = a denomination repeats *)
+  Fixpoint check_denoms (seen : list bytes) (ds : list bytes) : option (list bytes) :=
+    match ds with
+    | [] => Some seen
+    | d :: ds' => if existsb (bytes_eqb d) seen then None else check_denoms (d :: seen) ds'
+    end.
+
   (* GenesisState.Validate *)
   Fixpoint validate_genesis (seen_erc20 seen_denom : list bytes) (ps : list pair) : outcome unit :=
     match ps with
@@ -403,12 +410,7 @@ Section Model.
           match p_denoms p with
           | [] => Err
           | _ =>
-            let fix go (seen : list bytes) (ds : list bytes) : option (list bytes) :=
-                match ds with
-                | [] => Some seen
-                | d :: ds' => if existsb (bytes_eqb d) seen then None else go (d :: seen) ds'
-                end in
-            match go seen_denom (p_denoms p) with
+            match check_denoms seen_denom (p_denoms p) with
             | None => Err
             | Some seen' => if pair_validate p then validate_genesis (key :: seen_erc20) seen' r else Err
             end
